@@ -776,6 +776,52 @@ def gen_base_cfg(rng, quick):
     return c
 
 
+HI_EXAMPLES = [[(1, 8)], [(8, 3), (3, 3), (0, 8)], [(11, 2), (2, 11), (9, 9), (2, 5)], [(10, 4), (4, 7), (7, 10), (10, 4)],
+               [(8, 1)], [(9, 0), (0, 9)], [(15, 15)], [(12, 3), (3, 12), (12, 12)]]
+
+
+def gen_hi_ij(rng, nch):
+    """a SPARSE pair list on many-channel data: at most four distinct channels, at least one index >= 8
+    (small Python sets / dicts of such keys do not iterate in ascending order), with repeated, self and
+    reversed pairs"""
+    ex = [e for e in HI_EXAMPLES if max(v for p in e for v in p) < nch]
+    if ex and rng.random() < 0.4:
+        return [list(p) for p in rng.choice(ex)]
+    k = rng.randint(2, 4)
+    hi = rng.randrange(8, nch)
+    ch = [hi] + rng.sample([c for c in range(nch) if c != hi], k - 1)
+    ij = [(rng.choice(ch), rng.choice(ch)) for _ in range(rng.randint(1, 4))]
+    if not any(hi in p for p in ij):
+        ij.append((hi, rng.choice(ch)))
+    if rng.random() < 0.5:
+        p = rng.choice(ij)
+        ij.append((p[1], p[0]))
+    if rng.random() < 0.3:
+        ij.append(rng.choice(ij))
+    if rng.random() < 0.3:
+        ij.append((hi, hi))
+    rng.shuffle(ij)
+    return [list(p) for p in ij]
+
+
+def gen_hi_cfg(rng, quick):
+    """K-sized case on 9..12 (thorough: ..16) channels with a sparse high-index pair list; small NFFT keeps it cheap"""
+    while True:
+        c, n = gen_common(rng, quick, 3)
+        if c["nfft"] <= 8:
+            break
+    nch = rng.randint(9, 12 if quick else 16)
+    c.update({"kind": "cache", "via": "analyzer" if rng.random() < 0.4 else "func",
+              "data": [[fh(v) for v in r] for r in gen_data(rng, nch, n)], "ij": gen_hi_ij(rng, nch),
+              "fs_in_method": True, "form": rng.choice(["C", "F", "strided"]),
+              "ij_form": rng.choice(["list", "tuple", "array", "lists"]), "call": rng.choice(["kw", "pos", "defaults"]),
+              "lb_int": rng.random() < 0.5})
+    if c["via"] == "analyzer":
+        c["fs"] = fh(rng.choice([1.0, 2.0, 0.5, 4.0, 10.0]))
+        c["lb"], c["ub"] = fh(0.0), None
+    return c
+
+
 def gen_cfg(rng, quick):
     """a K-sized configuration, in one of the alternative forms the entry points accept"""
     c = gen_base_cfg(rng, quick)
@@ -844,10 +890,14 @@ def gen_wide_cfg(rng, quick):
         c["seeds_spec"] = dict(sp, rows=[0, ns])
         c["targets_spec"] = dict(sp, rows=[ns, sp["nch"]])
         return to_method_none(c, rng) if rng.random() < 0.2 else c
-    nch = rng.choice([2, 3, 5, 8, 12])
-    c.update({"kind": "cache", "via": "analyzer" if rng.random() < 0.3 else "func", "data_spec": spec(nch),
-              "ij": gen_ij(rng, nch) if nch <= 5 else
-              [[rng.randrange(nch), rng.randrange(nch)] for _ in range(rng.randint(3, 12))] + [[nch - 1, 0], [0, 0]]})
+    nch = rng.choice([2, 3, 5, 8, 9, 12, 13, 16])
+    if nch <= 5:
+        ij = gen_ij(rng, nch)
+    elif nch >= 9 and rng.random() < 0.6:
+        ij = gen_hi_ij(rng, nch)
+    else:
+        ij = [[rng.randrange(nch), rng.randrange(nch)] for _ in range(rng.randint(3, 12))] + [[nch - 1, 0], [0, 0]]
+    c.update({"kind": "cache", "via": "analyzer" if rng.random() < 0.3 else "func", "data_spec": spec(nch), "ij": ij})
     if c["via"] == "analyzer":
         c["fs"] = fh(rng.choice([1.0, 2.0, 0.5, 4.0, 10.0]))
     return to_method_none(c, rng) if rng.random() < 0.2 else c
@@ -944,6 +994,7 @@ def run(ctx):
     n = int(os.environ.get("C09_CASES") or ctx.scale(280, 1500))      # C09_CASES: development knob only
     nwide = int(os.environ.get("C09_WIDE") or ctx.scale(36, 400))
     cfgs = corpus_cfgs() + [gen_cfg(ctx.rng, ctx.quick) for _ in range(n)]
+    cfgs += [gen_hi_cfg(ctx.rng, ctx.quick) for _ in range(ctx.scale(12, 80))]   # K too: sparse lists with channel indices >= 8
     cfgs += [gen_wide_cfg(ctx.rng, ctx.quick) for _ in range(nwide)]          # oracle only: the whole size / magnitude range
     cases = [make_case(c) for c in cfgs]
     kcases = [c for c in cases if c.err is None and c.coq]
@@ -969,7 +1020,7 @@ def run(ctx):
                          "points, both memory settings, scale_by_freq both, functions and Sparse/SeedCoherenceAnalyzer, 1-d and "
                          "2-d seeds, data C / Fortran / strided / int64, ij as list / tuple / array / list of lists, window also as a "
                          "python list, keyword and positional calls; every case is non-trivial (random data, non-zero channels). "
-                         "Plus oracle-only 'wide' cases (not evaluated in Coq): lengths 21 .. 65537 incl. 1025 / 2049 / 4097 / "
+                         "Plus K-sized cases on 9..16 channels with sparse pair lists using channel indices >= 8. Plus oracle-only 'wide' cases (not evaluated in Coq): lengths 21 .. 65537 incl. 1025 / 2049 / 4097 / "
                          "8193 / 16385 and primes, NFFT 33 .. 1025 of both parities or left to its default, up to thousands of "
                          "windows, up to 12 channels, data scaled by 2^-60 .. 2^40 with offsets. The search oracle takes its "
                          "reference from matplotlib.mlab.csd directly (not from nitime's get_spectra / coherency) and its band "
